@@ -146,6 +146,10 @@ func unitsRules() lexer.Rules {
 		{Name: "LineEnd", Pattern: `;[^\n]*$`},
 		{Name: "Op", Pattern: `[-+*/=<>!]=?`},
 		{Name: "Pair", Pattern: `(\w):(\w)?`},
+		{Name: "Shebang", Pattern: `^#![^\n]*`},
+		{Name: "Fold", Pattern: `(?i)\$(?:émile|ÉCOLE|straße)`},
+		{Name: "NotWord", Pattern: `@\B@?`},
+		{Name: "Hex", Pattern: `0[xX][0-9a-fA-F]{1,4}`},
 		{Name: "space", Pattern: `\s+`},
 	}}
 }
@@ -164,6 +168,30 @@ func optGroupRules() lexer.Rules {
 		"Common": {
 			{Name: "whitespace", Pattern: `\s+`},
 			{Name: "Ident", Pattern: `\w+`},
+		},
+	}
+}
+
+// convolutedBackrefRules: back-references next to escaped backslashes (from the repository's own
+// "convoluted" test) and a two-group push.
+func convolutedBackrefRules() lexer.Rules {
+	return lexer.Rules{
+		"Root": {
+			{Name: "JustOne", Pattern: `(\\\\1)`, Action: lexer.Push("Convoluted")},
+			{Name: "Pair", Pattern: `<(\w+)\|(\w+)>`, Action: lexer.Push("Paired")},
+			{Name: "space", Pattern: `\s+`},
+			{Name: "Other", Pattern: `[^\s<\\]+`},
+		},
+		"Convoluted": {
+			{Name: "ConvolutedMatch", Pattern: `\\\\\1`},
+			{Name: "space", Pattern: `\s+`},
+			{Name: "Done", Pattern: `;`, Action: lexer.Pop()},
+		},
+		"Paired": {
+			{Name: "First", Pattern: `\b\1\b`},
+			{Name: "Second", Pattern: `\b\2\b`, Action: lexer.Pop()},
+			{Name: "space", Pattern: `\s+`},
+			{Name: "Word", Pattern: `\w+`},
 		},
 	}
 }
@@ -206,7 +234,9 @@ var lexDefs = []*lexDef{
 	{name: "nullable-actions", rules: nullableActionRules, genName: "NullableActions", build: func() lexer.Definition { return mustRules(nullableActionRules()) },
 		corpus: []string{"a (b c) d", "a ( b", "a ) b", "(a (b)) !", "a $ b", ""}},
 	{name: "units", rules: unitsRules, genName: "Units", build: func() lexer.Definition { return mustRules(unitsRules()) },
-		corpus: []string{"10px 12 3.5em 7% 1.5e-3 2rem", "select a-b FROM 'it\\'s' where x<=>y -> z", "<div class> text </div> a..b a...b \\n \\", "x:y z: ; comment\nünï 'open", "10p 1.e 1.5e+ <a  'q\\", ""}},
+		corpus: []string{"10px 12 3.5em 7% 1.5e-3 2rem", "select a-b FROM 'it\\'s' where x<=>y -> z", "<div class> text </div> a..b a...b \\n \\", "x:y z: ; comment\nünï 'open", "10p 1.e 1.5e+ <a  'q\\", "#!/bin/sh -e\n$Émile $école $STRASSE $x @ @@ 0x1F 0Xabcde 0x", ""}},
+	{name: "convoluted-backref", rules: convolutedBackrefRules, build: func() lexer.Definition { return mustRules(convolutedBackrefRules()) },
+		corpus: []string{`\\1 \\\1 ; x`, `<ab|cd> w ab x cd y`, `<a|b> a a b <c|c> c`, `\\1 \\1`, `<a|`, ""}},
 	{name: "optgroup", rules: optGroupRules, build: func() lexer.Definition { return mustRules(optGroupRules()) },
 		corpus: []string{"a <<-END x y END b", "a <<END x END b", "<<- x", "<<E", ""}},
 	{name: "basic-runtime", build: basicRuntimeDef, genName: "",
